@@ -450,7 +450,7 @@ class RefStore(object):
         if not todo:
             return
         keys = sorted(todo)
-        res = core.pmap('histsim', [todo[k] for k in keys], limit=180)
+        res = core.pmap('histsim', [todo[k] for k in keys], limit=600)
         for k, (st, tr) in zip(keys, res):
             if st != 'ok':
                 raise core.HarnessError('reference computation failed: %s' % tr)
